@@ -14,6 +14,7 @@ mod p06_resync;
 mod p07_reader;
 mod p08_stream;
 mod p09_filter;
+mod p10_stats;
 mod p13_construct;
 mod p15_lengths;
 mod p14_codes;
@@ -89,6 +90,7 @@ fn main() {
             "C08" => p08_stream::run(&ctx),
             "C09" => p09_filter::run(&ctx),
             "C15" => p15_lengths::run(&ctx),
+            "C10" => p10_stats::run(&ctx),
             "C13" => p13_construct::run(&ctx),
             "C14" => p14_codes::run(&ctx),
             "C19" => p19_zstring::run(&ctx),
